@@ -202,6 +202,7 @@ func cmdChild(props map[string]Property, args []string) int {
 	lastFlush := time.Now()
 	segs := plan(p, *tier, *seed)
 	n := planUnits(segs)
+	var curSeg segment
 	for u := 0; u < n; u++ {
 		if *only >= 0 {
 			if u != *only {
@@ -222,6 +223,13 @@ func cmdChild(props map[string]Property, args []string) int {
 				}
 			}()
 			seg, lu := locate(segs, u)
+			if seg != curSeg {
+				// entering a segment: let the property build its work list, then take the heap the
+				// harness itself holds as the floor above which memory pressure is measured
+				curSeg = seg
+				p.Units(seg.Tier, seg.Seed)
+				simctx.Rebase()
+			}
 			env.Tier, env.Seed = seg.Tier, seg.Seed
 			p.RunUnit(env, lu)
 		}()
@@ -791,6 +799,10 @@ func cmdRun(props map[string]Property, args []string) int {
 	ev.Coverage["seeds"] = map[string]any{"VERIF_SEED": seed, "sub_seeds": units, "sweep": segs, "note": "unit i of a segment uses the sub-seed mix(segment seed, property, i); every case inside a unit derives from it; the thorough tier is the thorough workload under VERIF_SEED plus the quick workload under further PRNG values derived from it"}
 	ev.Coverage["known_finding_hits"] = total.Stats["known_finding_hits"]
 	ev.Coverage["notes"] = total.Notes
+	if cut, marked := total.Stats["cases_cut_by_memory_pressure"], total.Stats["cases_marked"]; marked > 0 && cut*50 > marked {
+		// more than 2% of the cases ran under memory pressure and were cut short: a clean result would be vacuous
+		infra = append(infra, fmt.Sprintf("%d of %d cases were cut short by the memory-pressure seam: the harness itself holds too much memory, the result would be vacuous", cut, marked))
+	}
 	ev.Coverage["infra_trouble"] = infra
 	p.Describe(ev)
 	if evs, ok := ev.Coverage["evaluations"].(int64); ok && wall > 0 {
